@@ -18,7 +18,7 @@ OUTSIDE = "5..30 vertices (identical per-edge algebra, but the solver verdict co
 ASSUMPTIONS = ["solver contract: returns dx with H dx = rhs (nonsingular case)", "information symmetric", "connected + >=1 fixed + SPD information => unique minimiser (convexity argument)"]
 
 
-def _build(P, g, dim, nv, edges, fixed, shared=False):
+def _build(P, g, dim, nv, edges, fixed, shared=False, far=()):
     kind = "R%d" % dim
     if shared:
         # every vertex starts at the same point and all poses are built from ONE array (PoseRn(arr) is a view of arr)
@@ -30,7 +30,10 @@ def _build(P, g, dim, nv, edges, fixed, shared=False):
         verts = [g.Vertex(i, cls(start), fixed=(i in fixed)) for i in range(nv)]
         verts[0]._shared_start = (start, keep)
     else:
-        verts = [g.Vertex(i, mk_pose(P, g, kind, "x%d" % i), fixed=(i in fixed)) for i in range(nv)]
+        cls = g.PoseR2 if dim == 2 else g.PoseR3
+        # "far": the float64 validation runs start these vertices about 1e7 away (the solver side is the same proof: the start
+        # is an arbitrary real either way)
+        verts = [g.Vertex(i, cls(P.reals("x%d" % i, dim, scale=1e7)) if i in far else mk_pose(P, g, kind, "x%d" % i), fixed=(i in fixed)) for i in range(nv)]
     eobjs, model = [], []
     for k, (typ, a, b) in enumerate(edges):
         om = P.sym_matrix("om%d" % k, dim, psd=True)
@@ -64,24 +67,41 @@ def _ref(P, dim, model, X):
     return chi, grad
 
 
-def _case(dim, nv, edges, fixed, ff, shared=False):
+def _case(dim, nv, edges, fixed, ff, shared=False, restart=False, far=False):
     def fn(P, g):
         np = P.np
         env = install_stubs(P, g, solver=contract_solver(P) if P.symbolic else None)
-        graph, verts, model = _build(P, g, dim, nv, edges, fixed, shared)
-        init = [v.pose.to_array() for v in verts]
         eff = set(fixed) | ({0} if ff else set())
+        graph, verts, model = _build(P, g, dim, nv, edges, fixed, shared, far=[i for i in range(nv) if i not in eff] if far else ())
         import warnings
+
+        if restart:
+            # the SAME Graph object has been optimized before; the user then supplies a new initial guess for the free
+            # vertices (rebinding one, overwriting the others in place) and optimizes again: still one step to the optimum
+            with warnings.catch_warnings():
+                warnings.simplefilter("ignore")
+                graph.optimize(tol=1e-9, max_iter=2, fix_first_pose=ff, verbose=False)
+            for i, v in enumerate(verts):
+                if i in eff:
+                    continue
+                guess = mk_pose(P, g, "R%d" % dim, "restart%d" % i)
+                if i % 2:
+                    v.pose = guess
+                else:
+                    v.pose[:] = guess.to_array()
+        init = [v.pose.to_array() for v in verts]
 
         with warnings.catch_warnings():
             warnings.simplefilter("ignore")
-            res = graph.optimize(tol=1e-9, max_iter=1, fix_first_pose=ff, verbose=False)
+            res = graph.optimize(tol=1e-9, max_iter=2 if far else 1, fix_first_pose=ff, verbose=False)
         X = [[v.pose[i] for i in range(dim)] for v in verts]
         chi, grad = _ref(P, dim, model, X)
         for i in range(nv):
             if i in eff:
                 P.check_eq("fixed_unchanged_%d" % i, verts[i].pose.to_array(), init[i])
-            else:
+            elif P.symbolic or not far:
+                # (float64 runs from 1e7 away: the gradient is zero up to rounding of that size only; the reports below are
+                # still compared there)
                 P.check_eq("stationary_%d" % i, grad[i], [0.0] * dim)
         if shared:
             start, keep = verts[0]._shared_start
@@ -149,4 +169,6 @@ def cases(tier):
                 seen.add(_name(t))
                 topo.append(t)
     shared_cases = [Case("shared-start-" + _name(t), _case(*t, shared=True), timeout=60, old_timeout=60, validate=2, feas_timeout_ms=2000) for t in (TOPO_QUICK[1], TOPO_QUICK[2], TOPO_QUICK[6])]
+    shared_cases += [Case("far-start-" + _name(t), _case(*t, far=True), timeout=60, old_timeout=60, validate=3, shadow=False, feas_timeout_ms=2000) for t in (TOPO_QUICK[1], TOPO_QUICK[4], TOPO_QUICK[5])]
+    shared_cases += [Case("restart-" + _name(t), _case(*t, restart=True), timeout=60, old_timeout=60, validate=2, feas_timeout_ms=2000) for t in (TOPO_QUICK[2], TOPO_QUICK[7], TOPO_QUICK[9])]
     return shared_cases + [Case(_name(t), _case(*t), timeout=60 if tier == "quick" else 300, old_timeout=60 if tier == "quick" else 300, validate=2, feas_timeout_ms=2000, shards=2 if t[1] >= 3 else 1) for t in topo]
